@@ -64,3 +64,4 @@ mod float_axioms {
 }
 mod stats_real;
 mod policy_real;
+mod estimator_real;
